@@ -8,7 +8,51 @@ COMMON_NOTE = ("Trusted: Lean 4.33.0 kernel (axioms propext, Classical.choice, Q
                "model and the Lean statement of the property; the Go fact extractor and correspondence harness. The theorems are about "
                "the model; agreement of model and code is checked by regenerated tables and by sampled differential runs, not proved. ")
 
+# --- anchored functions (names as in lean/GoSup/Generated/Skeleton.lean, without the skel_ prefix) ---
+SUP_CORE = ["supervisor_New", "supervisor_PIDZero_Run", "supervisor_PIDZero_Shutdown", "supervisor_PIDZero_reap",
+            "supervisor_PIDZero_startRunnable", "supervisor_PIDZero_blockUntilRunnableReady", "supervisor_PIDZero_SendSignal",
+            "supervisor_PIDZero_listenForSignals", "supervisor_PIDZero_startShutdownManager", "supervisor_WithContext",
+            "supervisor_WithShutdownTimeout", "supervisor_WithStartupInitial", "supervisor_WithStartupTimeout",
+            "supervisor_WithRunnables", "supervisor_WithSignals"]
+SUP_RELOAD = ["supervisor_PIDZero_ReloadAll", "supervisor_PIDZero_startReloadManager", "supervisor_PIDZero_reloadAllRunnables"]
+SUP_STATE = ["supervisor_PIDZero_startStateMonitor", "supervisor_PIDZero_broadcastState", "supervisor_PIDZero_AddStateSubscriber",
+             "supervisor_PIDZero_SubscribeStateChanges", "supervisor_PIDZero_unsubscribeState", "supervisor_PIDZero_GetStateMap",
+             "finitestate_Machine_getStateChanInternal", "finitestate_Machine_GetStateChan"]
+LIFECYCLE = ["lifecycle_New", "lifecycle_StartStop_Started", "lifecycle_StartStop_Stop", "lifecycle_StartStop_StopCh"]
+COMPOSITE = ["composite_Runner_Run", "composite_Runner_Stop", "composite_Runner_boot", "composite_Runner_startRunnable",
+             "composite_Runner_stopAllRunnables", "composite_Runner_getConfig", "composite_Runner_setConfig", "composite_Runner_Reload",
+             "composite_Runner_reloadWithRestart", "composite_Runner_reloadSkipRestart", "composite_hasMembershipChanged",
+             "composite_Runner_setStateError", "composite_NewRunner", "composite_NewConfig", "composite_NewConfigFromRunnables"]
+HTTPSERVER = ["httpserver_Runner_Run", "httpserver_Runner_Stop", "httpserver_Runner_boot", "httpserver_Runner_serverReadinessProbe",
+              "httpserver_Runner_stopServer", "httpserver_Runner_shutdown", "httpserver_Runner_Reload", "httpserver_Runner_reloadConfig",
+              "httpserver_Runner_getConfig", "httpserver_Runner_setConfig", "httpserver_Runner_setStateError", "httpserver_NewRunner",
+              "httpserver_Config_createServer", "httpserver_Config_getMux", "httpserver_DefaultServerCreator", "httpserver_NewConfig",
+              "httpserver_newRoute", "httpserver_NewRouteFromHandlerFunc", "httpserver_WithConfigCopy"]
+EQUAL = ["httpserver_Config_Equal", "httpserver_Route_Equal", "httpserver_Routes_Equal"]
+MIDDLEWARE = ["httpserver_RequestProcessor_Next", "httpserver_RequestProcessor_Abort", "httpserver_RequestProcessor_IsAborted",
+              "httpserver_RequestProcessor_Writer", "httpserver_RequestProcessor_Request", "httpserver_RequestProcessor_SetWriter",
+              "httpserver_Route_ServeHTTP", "httpserver_newResponseWriter", "httpserver_responseWriter_WriteHeader",
+              "httpserver_responseWriter_Write", "httpserver_responseWriter_Status", "httpserver_responseWriter_Written",
+              "httpserver_responseWriter_Size", "mw_recovery_New", "mw_headers_New", "mw_headers_NewWithOperations", "mw_headers_WithSet",
+              "mw_headers_WithSetHeader", "mw_headers_WithAdd", "mw_headers_WithAddHeader", "mw_headers_WithRemove",
+              "mw_headers_WithSetRequest", "mw_headers_WithSetRequestHeader", "mw_headers_WithAddRequest",
+              "mw_headers_WithAddRequestHeader", "mw_headers_WithRemoveRequest", "mw_wildcard_New", "mw_state_New", "mw_logger_New",
+              "mw_metrics_New"]
+CLUSTER = ["httpcluster_Runner_Run", "httpcluster_Runner_Stop", "httpcluster_Runner_shutdown", "httpcluster_Runner_processConfigUpdate",
+           "httpcluster_Runner_executeActions", "httpcluster_Runner_stopServers", "httpcluster_Runner_startServers",
+           "httpcluster_Runner_createAndStartServer", "httpcluster_Runner_waitForIsRunning", "httpcluster_Runner_setStateError",
+           "httpcluster_NewRunner", "httpcluster_Runner_GetServerCount", "httpcluster_defaultRunnerFactory"]
+PLANNER = ["httpcluster_entries_buildPendingEntries", "httpcluster_entries_clearRuntime", "httpcluster_entries_commit",
+           "httpcluster_entries_count", "httpcluster_entries_get", "httpcluster_entries_getPendingActions",
+           "httpcluster_entries_removeEntry", "httpcluster_entries_setRuntime", "httpcluster_newEntries",
+           "httpcluster_processExistingServer"]
+PORT = ["networking_ValidatePort"]
+STATEFNS = ["composite_Runner_IsRunning", "composite_Runner_GetState", "composite_Runner_GetStateChan",
+            "httpserver_Runner_IsRunning", "httpserver_Runner_GetState", "httpserver_Runner_GetStateChan",
+            "httpcluster_Runner_IsRunning", "httpcluster_Runner_GetState", "httpcluster_Runner_GetStateChan"]
+
 PROPS["C20"] = {
+    "skeleton_fns": PORT,
     "lean_modules": ["GoSup.Props.C20"],
     "theorems": [
         "GoSup.Props.C20.vp_empty",
@@ -33,6 +77,7 @@ PROPS["C20"] = {
 }
 
 PROPS["C15"] = {
+    "skeleton_fns": MIDDLEWARE,
     "lean_modules": ["GoSup.Props.C15"],
     "theorems": [],
     "ties": [],
@@ -56,6 +101,7 @@ PROPS["C15"] = {
 }
 
 PROPS["C13"] = {
+    "skeleton_fns": EQUAL + ["httpserver_Runner_Reload", "httpserver_Runner_reloadConfig", "httpserver_Runner_boot", "httpserver_Runner_stopServer"],
     "lean_modules": ["GoSup.Props.C13"],
     "theorems": [],
     "ties": [],
@@ -73,6 +119,7 @@ PROPS["C13"] = {
 }
 
 PROPS["C11"] = {
+    "skeleton_fns": COMPOSITE,
     "lean_modules": ["GoSup.Props.C11"],
     "theorems": [],
     "ties": [],
@@ -88,6 +135,7 @@ PROPS["C11"] = {
 }
 
 PROPS["C16"] = {
+    "skeleton_fns": CLUSTER + PLANNER + ["httpserver_Config_Equal"],
     "lean_modules": ["GoSup.Props.C16"],
     "theorems": [],
     "ties": [],
@@ -101,4 +149,28 @@ PROPS["C16"] = {
     "level_text": "Theorems about the diff planner over finite maps of any size under the NoClash precondition; cluster model.",
     "level_note": COMMON_NOTE,
     "design_ref": "DESIGN.md section 5, C16",
+}
+
+PROPS["C07"] = {
+    "skeleton_fns": LIFECYCLE + ["composite_Runner_Run", "composite_Runner_Stop", "httpserver_Runner_Run", "httpserver_Runner_Stop",
+                                 "httpcluster_Runner_Run", "httpcluster_Runner_Stop"],
+    "lean_modules": ["GoSup.Props.C07", "GoSup.Tie.Lifecycle"],
+    "theorems": ["GoSup.Props.C07.c07_safety", "GoSup.Props.C07.c07_signalled", "GoSup.Props.C07.c07_started_passable",
+                 "GoSup.Props.C07.c07_immediate"],
+    "ties": ["GoSup.Tie.Lifecycle.runners_use_lifecycle"],
+    "legs": [{"name": "lifecycle", "cmd": "lifecycle"}],
+    "rule": "schedules: a yield-point controller (build tag verif) releases one goroutine at a time between the critical sections "
+            "and blocking receives of lifecycle.StartStop.Stop with k=1..4 concurrent Stop callers and m=1..4 consecutive Run cycles; "
+            "committed corpus of schedules first, then seeded random schedules; every trace is replayed on the Lean model (each "
+            "observed step must be enabled; at the quiescent end the blocked threads must be exactly the model's disabled ones) and "
+            "Spec.C07.holds is evaluated on it. Non-trivial = a Stop overlapped a Run cycle; distinct by the event trace.",
+    "assumptions": ["Run cycles are consecutive (a second Run starts only after the previous one returned)",
+                    "a goroutine that does not reach its next yield point within 0.6 ms of being released into a blocking receive "
+                    "is treated as blocked; late arrivals are still recorded when they happen"],
+    "trusted_base": [],
+    "level_text": "Invariant proof over the LTS of StartStop for any number of Stop callers, any interleaving and any number of "
+                  "cycles: a returned Stop targeted a finished Run; a Stop blocked on an unfinished Run has closed that Run's stop "
+                  "channel; immediate return after the last Run. Lifted to the bundled runners by a regenerated table theorem.",
+    "level_note": COMMON_NOTE + "Go mutex/channel semantics are modelled (one action per critical section).",
+    "design_ref": "DESIGN.md section 5, C07",
 }
